@@ -116,6 +116,69 @@ def spec_reverse_udp_accept(ck):
     ck.bounds['reverse-udp'] = 'one call of udp_accept: one datagram from any source, the source having a session or not, session set-up / channel send / enqueue succeeding or failing'
 
 
+def method_or_trait_default(ck, selfty, meth, trait):
+    """what a virtual call `cb.meth(..)` on a `selfty` runs: the impl's own method, else the trait's provided body"""
+    try:
+        return ck.db.method(selfty, meth, trait=trait)
+    except KeyError:
+        d = ck.db.by_name.get('%s::%s' % (trait, meth), [])
+        if len(d) == 1:
+            return d[0]
+        raise
+
+
+def spec_reverse_session_end(ck):
+    """a reverse UDP session is over when the dispatcher makes its LAST call into the context's callback -- `on_error` (refused,
+    upstream failed, relay failed) or `on_finish` (relay ended), never both (src/main.rs).  Whichever it is, the session table no
+    longer maps the client's source to the dead session afterwards; otherwise every later datagram from that client is sent into
+    a closed channel and lost, and no new session can ever start for it."""
+    for meth in ('on_error', 'on_finish'):
+        fn = ck.find(lambda m=meth: method_or_trait_default(ck, 'ReverseCallback', m, 'ContextCallback'), 'ReverseCallback::' + meth)
+        if fn is None:
+            continue
+        ex = ck.engine(loop_bound=3, call_depth=8)
+        ex.benign_havoc = BENIGN
+        st = State()
+        client = Opaque('SocketAddr', 'client-source')
+        sessions = Opaque('CHashMap<SocketAddr, Sender<Frame>>', 'session-table')
+
+        def chm_remove(ctx):
+            tbl = ctx.args[0]
+            seen = 0
+            while isinstance(tbl, Ref) and seen < 4:
+                tbl = ctx.ex.deref(ctx.st, tbl)
+                seen += 1
+            key = ctx.ex.deref(ctx.st, ctx.args[1]) if isinstance(ctx.args[1], Ref) else ctx.args[1]
+            ctx.st.trace.append(('sessions.remove', tbl, key))
+            return Future('unit_opt', [])
+
+        @CA.awaiter('unit_opt')
+        def _aw_rm(ctx, fut):
+            return C.mk_option(ctx.ex, None)
+        ex.overrides.append((re.compile(r'^CHashMap::<.*>::remove(?:::<.*>)?$'), chm_remove))
+        fields = ck.si.structs.get('ReverseCallback', ['client', 'sessions'])
+        me = Agg('ReverseCallback', {fields.index('client'): client, fields.index('sessions'): Ref(st.alloc(sessions), ())})
+        args = [Ref(st.alloc(me), ()), Ref(st.alloc(Opaque('context::Context', 'ctx')), ())]
+        if meth == 'on_error':
+            args.append(Opaque('easy_error::Error', 'the-error'))
+        outs = run_async(ex, st, fn, args)
+        reached = 0
+        for o, r in outs:
+            if o.status != 'returned':
+                continue
+            reached += 1
+            rm = [e for e in o.trace if e[0] == 'sessions.remove']
+            ex.prove(o, 'C10/reverse-udp/a-finished-session-is-removed-from-the-session-table-whichever-way-it-ended',
+                     z3.BoolVal(any(e[1] is sessions and e[2] is client for e in rm)))
+        if not reached:
+            ck.add('C10/reverse-udp/session-end-reachability', 'vacuous', 'ReverseCallback::%s never returned in the model' % meth)
+        for f in ex.findings:
+            if not hasattr(f, 'target'):
+                f.target = 'reverse session end ' + meth
+        ck.absorb(ex, 'ReverseCallback::' + meth, [o for o, _ in outs])
+    ck.bounds['reverse-udp-session-end'] = 'one terminal callback (on_error / on_finish) on the callback object of one session'
+
+
 def replay_plan(ob):
     f = ob.finding
     if f is None or (ob.target or '') != 'reverse udp_accept' or not ob.label.startswith('C10/reverse-udp/every-accepted'):
